@@ -12,11 +12,26 @@ def parseUse (j : Json) : Option Use :=
   | some "encryption" => some .encryption
   | _ => none
 
-/-- "certs": null = KeyInfo without X509Data; a null entry = X509Data without certificate; an entry ""
-    = an EMPTY X509Certificate element (contributes none, fix 2dbe22bb) -/
+/-- One X509Data entry of the case: a certificate name; null = no certificate; "" = an EMPTY
+    X509Certificate element (contributes none, fix 2dbe22bb); a list = SEVERAL X509Certificate elements
+    in one X509Data, of which the XML→dict conversion of mdstore keeps the last (outside the model). -/
+def parseX509 (c : Json) : Option String :=
+  let one : Json → Option String := fun j => match asStr? j with | some "" => none | x => x
+  match c with
+  | .arr a => (a.toList.getLast?).bind one
+  | j => one j
+
+/-- "certs": null = KeyInfo without X509Data.  "extras" (KeyName, X509SubjectName, X509IssuerSerial,
+    EncryptionMethod, …) publish no key and are no input of the model.  `use=""` is dropped by the parser. -/
 def parseKd (j : Json) : KeyDescr String :=
-  { use := parseUse j,
-    x509 := ((arr? j "certs").getD []).map (fun c => match asStr? c with | some "" => none | x => x) }
+  { use := parseUse j, x509 := ((arr? j "certs").getD []).map parseX509 }
+
+/-- a `use` text outside the schema's enumeration makes mdstore refuse the whole metadata document -/
+def validUse (j : Json) : Bool :=
+  match j.getObjVal? "use" with
+  | .ok (.str "signing") | .ok (.str "encryption") | .ok (.str "") | .ok .null => true
+  | .ok _ => false
+  | .error _ => true
 
 def parseKind : String → Option RoleKind
   | "spsso" => some .spsso
@@ -30,7 +45,9 @@ def parseRole (j : Json) : Option (RoleDescr String) :=
   (parseKind (strD j "kind")).map fun k => { kind := k, keys := (arrD j "keys").map parseKd }
 
 def parseEntities (md : Json) : List (String × Entity String) :=
-  (arrD md "entities").map fun e => (strD e "id", { roles := (arrD e "roles").filterMap parseRole })
+  if (arrD md "entities").all fun e => (arrD e "roles").all fun r => (arrD r "keys").all validUse then
+    (arrD md "entities").map fun e => (strD e "id", { roles := (arrD e "roles").filterMap parseRole })
+  else []   -- the document does not validate: mdstore loads NO entity from this source
 
 /-- the store as a lookup: single source, entity identifiers unique -/
 def mkMd (ents : List (String × Entity String)) : Metadata String String :=
@@ -143,9 +160,19 @@ def handle (line : Json) : Json :=
   let first := parseMsg ((obj? c "first").getD Json.null)
   let hasKi := !(m.keyInfo.certs.isEmpty && m.keyInfo.rsa.isNone)
   let kindS := strD c "kind"
+  -- detached parameters as they arrive; a Signature value that is not a genuine signature verifies under no key
+  let alg := strD c "sigalg" "sha256"
+  let form := strD c "sigform" "genuine"
+  let implemented := ["sha1", "sha224", "sha256", "sha384", "sha512"].contains alg
+  let params : DetParams :=
+    if alg == "absent" || form == "absent" then .missing else if implemented then .ok else .unimplemented
+  -- (for `missing`/`unimplemented` the model does not look at the signer of the detached signature at all)
+  let m := if params == .ok && form != "genuine" && (kindS == "redirect" || kindS == "logout_redirect")
+           then { m with signer := none }   -- such forms are generated without an enveloped signature
+           else m
   -- advice_plain: the advice assertion's own signature is never looked at; only `first` is a checked item
   let (kind, item) : Kind String String × Msg String String :=
-    if kindS == "redirect" || kindS == "logout_redirect" then (.detached hasKi, m)
+    if kindS == "redirect" || kindS == "logout_redirect" then (.detached hasKi params, m)
     else if kindS == "advice_enc" then (.after first true, m)
     else if kindS == "plain_plus_enc" || kindS == "resp_assertion" || kindS == "resp_enc_assertion" then (.after first false, m)
     else if kindS == "advice_plain" then (.enveloped, first)
@@ -155,8 +182,13 @@ def handle (line : Json) : Json :=
   let path :=
     match kind with
     | .enveloped => (if kindS == "advice_plain" then "outer-only/" else "env/") ++ envPath kindOf onlyMd md item ovc
-    | .detached env =>
-      let det := if must || ovc then detPath kindOf own md item else "not-required-not-checked"
+    | .detached env p =>
+      let det := if !(must || ovc) then "not-required-not-checked"
+        else match p with
+          | .missing => "parameter-missing"
+          | .unimplemented => "sigalg-not-implemented:" ++ lookupTag md item.issuer
+          | .ok => detPath kindOf own md item ++ (if alg != "sha256" then "+alg:" ++ alg else "") ++
+                   (if form != "genuine" then "+sig:" ++ form else "")
       if env then
         if (checkSignatureOvc true kindOf ord onlyMd ovc md item).verdict = .accepted then
           "det+env/" ++ envPath kindOf onlyMd md item ovc ++ "|" ++ det
